@@ -1,7 +1,7 @@
 PROP = {
         "modules": ["Discv5Model.Props.C18"],
         "lemma_modules": ["Discv5Model.Proofs.LimiterLemmas"],
-        "engines": [{"name": "limiter", "quick": 1000, "thorough": 50000}],
+        "engines": [{"name": "limiter", "quick": 1000, "thorough": 50000}, {"name": "handler", "quick": 32, "thorough": 2000, "profile": "C13", "model": False}],
         "rule": "limiter engine: 70% limiter cases = one Limiter<u64> from a quota (burst 1..100, periods from 7 ns to 60 s, "
                 "exact / rounded / t = 0 / refused quotas) driven through the facade with explicit times by 80..110 arrivals over "
                 "1..4 keys in runs of patterns (burst, exactly at the rate, one ns faster / slower, random, exactly at / one ns before "
@@ -12,7 +12,10 @@ PROP = {
                 "and bans-per-IP limits, prune_limiter and the real ban sweep after a 15 ms sleep; 10% receive-path cases = datagrams "
                 "(garbage, WHOAREYOU, message) through the real RecvHandler::handle_inbound with and without expected-response "
                 "exemption. Non-trivial = arrivals judged under the theorem hypotheses (monitored), refusals, prune calls that "
-                "removed entries, excesses that must ban, banned / permitted / exempt datagrams, sweeps that unbanned",
+                "removed entries, excesses that must ban, banned / permitted / exempt datagrams, sweeps that unbanned"
+                " handler engine (monitors only, C13 profile): the filter is by-passed for an address exactly while the handler "
+                "holds an exemption for it, so an exemption left behind once nothing is outstanding is a hole in every quota and ban "
+                "for that address (monitor address-exempt-from-the-filter-with-nothing-outstanding at quiescence)",
         "nontrivial": [("limiter", "la.soon"), ("limiter", "la.large"), ("limiter", "lp.removed"),
                        ("limiter", "lf.ip.excess"), ("limiter", "lf.node.excess"), ("limiter", "lf.total.excess"),
                        ("limiter", "lf.ip.banned"), ("limiter", "lf.node.banned"), ("limiter", "lf.ip.permitted"),
